@@ -137,6 +137,16 @@ def ref(v, tag="t"):
     return Ptr(Cell(v, tag=tag), (), "ref")
 
 
+def on_path_end(it, exc):
+    """a panic (index out of bounds, unwrap on the wrong node kind, arithmetic overflow) or an unbounded loop inside an operation"""
+    from vlib.mirse.interp import LoopBound, Violation
+    kind = "C17:operation-returns" if isinstance(exc, LoopBound) else "C17:no-panic"
+    vals = it.model_values() or {}
+    v = Violation(kind, vals, list(it.trace), f"{it.env.get('witness')}: {exc}")
+    v.witness = it.env.get("witness")
+    it.violations.append(v)
+
+
 def scenario(it, params):
     """symbolic op sequence: every operation kind is an environment choice (all explored), every written value and the
     capacity are symbolic"""
